@@ -4,10 +4,8 @@ Require Import Board Move GameOver Eval EvalSpec.
 Require Import Generated.Consts.
 Import ListNotations.
 
-(* The thresholds transcribed in Eval.v are the implementation's. *)
-Lemma eval_consts_current : gen_WinBase = WinBase /\ gen_ForcedWin = ForcedWin /\ gen_MaxFeature = MaxFeature /\
-  gen_WinBase = ((gen_WinThreshold + gen_MaxEval) / 2)%Z.
-Proof. repeat split; reflexivity. Qed.
+(* (the lemma that the thresholds transcribed in Eval.v are the regenerated ones is EvalFacts5.eval_consts_current: a proof
+   obligation must not stop the model from being built and run) *)
 
 (* ai.DefaultWeights[size] *)
 Definition default_weights (sz : N) : weights := nth (N.to_nat sz) gen_DefaultWeights [].
